@@ -34,13 +34,18 @@ def mc(ctx, step, conv_fatal, maxlen, maxlenr, maxlenm=0, coverage=False, invs=I
 def model_check(ctx):
     # 1. the mechanism with the converter's error raised as outError satisfies the property for every program, k, stickiness
     maxlen, maxlenr, maxlenm = ctx.pick((4, 5, 0), (5, 6, 7))
-    wd, r, consts = mc(ctx, "mc", False, maxlen, maxlenr, maxlenm, coverage=not ctx.quick)
+    wd, r, consts = mc(ctx, "mc", False, maxlen, maxlenr, maxlenm)
     if not r.ok:
         raise Infra(f"MC_Writer (outError variant) did not pass: {wd}/MC_Writer.out\n" + rig.tail(r.out, 25))
     ctx.cov.update(states=r.distinct, transitions=r.generated, mc_wall_s=round(r.wall, 1), mc_invariants=INVS,
-                   bounds=f"programs over 9 instructions len<={maxlen} + 5-instruction alphabet len<={maxlenr} + 4-instruction alphabet len<={maxlenm} + {ncat_shapes(wd)} catalogue shapes (len<=18), call depth<=2, all k in 1..n+1, sticky or not")
+                   bounds=f"programs over 9 instructions len<={maxlen} + 5-instruction alphabet len<={maxlenr} + 4-instruction alphabet len<={maxlenm} + {ncat_shapes(wd)} catalogue shapes (len<=18), call depth<=2, all k in 1..n+1, failing once or (when the program can recover) sticky")
     if not ctx.quick:
-        ctx.cov["actions_never_taken"] = r.coverage_zero()
+        # action coverage is measured on a smaller instance of the same model (TLC's -coverage is slow)
+        wdc, rc, _ = mc(ctx, "mc_cov", False, 3, 4, 0, coverage=True)
+        if not rc.ok:
+            raise Infra(f"MC_Writer coverage run did not pass: {wdc}/MC_Writer.out")
+        ctx.cov["actions_never_taken"] = rc.coverage_zero()
+        ctx.cov["actions_coverage_measured_on"] = f"len<=3 / 4 + catalogue shapes: {rc.distinct} states"
     # 2. sensitivity / the code as found: raised as fatalError -> the model must violate NoHostPanic
     wd2, r2, _ = mc(ctx, "mc_fatal", True, 2, 2, invs=["InvNoHostPanic"])
     viol = "InvNoHostPanic" in r2.invariant_violated
